@@ -322,6 +322,7 @@ theorem mprocess_product_layout_fails :
 /-- Euclidean inner product of two coefficient lists (`np.vdot` on real arrays) -/
 def dotL (u v : List Rat) : Rat := lsum (List.zipWith (· * ·) u v)
 
+/-- helper: bilinearity of the list inner product under scalar multiples -/
 theorem dotL_scale (x y : Rat) (b s : List Rat) :
     dotL (b.map fun t => x * t) (s.map fun t => y * t) = x * y * dotL b s := by
   induction b generalizing s with
@@ -334,6 +335,7 @@ theorem dotL_scale (x y : Rat) (b s : List Rat) :
       simp only [dotL, List.map_cons, List.zipWith_cons_cons, lsum, List.foldr_cons] at *
       rw [this]; ring
 
+/-- helper: the list inner product splits over concatenations of equal-length blocks -/
 theorem dotL_append (a b c d : List Rat) (h : a.length = c.length) :
     dotL (a ++ b) (c ++ d) = dotL a c + dotL b d := by
   unfold dotL
@@ -388,7 +390,9 @@ theorem povm_product_raw_layout (vs1 vs2 : List (List Rat)) (i j : Nat) (a b : L
 
 /-! ### qutrit → two-qubit embedding (finite tables for one and two qutrits) -/
 
+/-- helper: `_permutation_matrix_from_qutrits_to_qubits(1)` is the identity permutation (finite fact) -/
 theorem embedIndex_one : embedIndex 1 = [0, 1, 2, 3] := by decide
+/-- helper: `_permutation_matrix_from_qutrits_to_qubits(2)`: qubit index ↦ qutrit-block index (finite fact) -/
 theorem embedIndex_two :
     embedIndex 2 = [0, 1, 2, 9, 3, 4, 5, 10, 6, 7, 8, 11, 12, 13, 14, 15] := by decide
 
